@@ -8,13 +8,21 @@
 pub mod spec;
 #[cfg(kani)]
 pub mod models;
+#[cfg(kani)]
+pub mod extm;
 
+#[cfg(all(kani, feature = "c06"))]
+pub mod c06;
 #[cfg(all(kani, feature = "c09"))]
 pub mod c09;
 #[cfg(all(kani, feature = "c11"))]
 pub mod c11;
+#[cfg(all(kani, feature = "c15"))]
+pub mod c15;
 #[cfg(all(kani, feature = "c18"))]
 pub mod c18;
+#[cfg(all(kani, feature = "c13"))]
+pub mod c13;
 #[cfg(all(kani, feature = "c14"))]
 pub mod c14;
 
